@@ -827,14 +827,18 @@ class KVGarbageCollector(BaseGarbageCollector):
                 event_id = key[-32:].hex()
                 to_del.append(event_id)
         # remove all expired events
-        start = INDEXES["tags"].to_key(("expiration", "0"))
-        end = INDEXES["tags"].to_key(("expiration", str(int(time()))))
-        if cursor.set_range(start):
+        # expiration values are decimal strings: byte order is not numeric order
+        # ("5" > "1700000000" > "10000000000"), so every entry is compared as a number
+        prefix = INDEXES["tags"].to_key(("expiration", ""))
+        now = int(time())
+        if cursor.set_range(prefix):
             for key in cursor.iternext(values=False):
-                if key > end:
+                key = bytes(key)
+                if key[: len(prefix)] != prefix:
                     break
-                event_id = key[-32:].hex()
-                to_del.append(event_id)
+                value = key[len(prefix) : -38]
+                if value.isdigit() and int(value) < now:
+                    to_del.append(key[-32:].hex())
 
         cursor.close()
         if to_del:
